@@ -43,7 +43,7 @@ PROPS = {
         'verus': [('coll', [H, 'postprocess_span_collection', 'amend_span', 'amend_local_span', 'mount_danglings']),
                   ('local', ['SpanQueue::add_event', 'SpanQueue::add_properties', 'SpanQueue::with_properties', 'SpanLine::add_event', 'SpanLine::add_properties', 'SpanLine::with_properties',
                              'LocalSpanStack::add_event', 'LocalSpanStack::add_properties', 'LocalSpanStack::with_properties', 'RawSpan::begin_with'])],
-        'kani': ['add_event_handle', 'add_properties_handle', 'enter_with_parent_matches_model'],
+        'kani': ['add_event_handle', 'add_properties_handle', 'enter_with_parent_matches_model', 'add_event_handle_two_parents', 'add_properties_handle_two_parents'],
         'assumptions': [COLL_ENV, COLL_STD, STD, 'strings are opaque values: "unchanged" means the same Cow value moved or cloned'],
     },
     'C08': {
@@ -61,8 +61,8 @@ PROPS = {
         'verus': [('coll', ['amend_span', 'amend_local_span']),
                   ('local', ['RawSpan::begin_with', 'RawSpan::end_with', 'SpanQueue::start_span', 'SpanQueue::finish_span', 'SpanQueue::add_event']),
                   ('lcoll', '*')],
-        'kani': [],
-        'assumptions': [CLOCK, NOW, 'NOT decided: "begin time lies inside the wall-clock window of the run" and interval nesting need a monotone clock (TSC + f64 conversion are trusted)'],
+        'kani': ['finish_submits_sampled_items_only'],
+        'assumptions': [CLOCK, NOW, KANI_ENV, 'NOT decided: "begin time lies inside the wall-clock window of the run" and interval nesting need a monotone clock (TSC + f64 conversion are trusted)'],
     },
     'C10': {
         'verus': [('local', '*')],
@@ -100,7 +100,7 @@ PROPS = {
     },
     'C05': {
         'verus': [('local', ['SpanLine::new', 'SpanLine::start_span', 'SpanLine::add_event', 'SpanLine::add_properties', 'SpanLine::with_properties', 'SpanLine::current_collect_token'])],
-        'kani': ['root_lifecycle', 'finish_submits_sampled_items_only', 'issued_token_rewrites_parent_only', 'child_token_names_parent', 'push_child_spans_direct', 'add_event_handle', 'add_properties_handle', 'unsampled_scope_shadows'],
+        'kani': ['root_lifecycle', 'finish_submits_sampled_items_only', 'issued_token_rewrites_parent_only', 'child_token_names_parent', 'push_child_spans_direct', 'add_event_handle', 'add_properties_handle', 'add_event_handle_two_parents', 'add_properties_handle_two_parents', 'unsampled_scope_shadows'],
         'assumptions': [KANI_ENV, API_SPLIT, 'composition: no command carrying an unsampled item ever enters a queue (submit filter), so by the collector oracle no record of an unsampled trace is produced'],
     },
     'C07': {
@@ -140,7 +140,7 @@ PROPS = {
         'verus': [('spsc', ['Sender::force_send', 'Sender::send', 'bounded', 'send_command', 'force_send_command']),
                   ('local', ['SpanQueue::start_span', 'SpanQueue::add_event', 'SpanQueue::add_properties', 'SpanQueue::finish_span', 'SpanLine::start_span', 'LocalSpanStack::enter_span', 'LocalSpanStack::register_span_line']),
                   ('coll', ['amend_span'])],
-        'kani': [],
-        'assumptions': [RTRB, TLS],
+        'kani': ['root_lifecycle', 'cancel_root'],
+        'assumptions': [RTRB, TLS, KANI_ENV],
     },
 }
